@@ -158,10 +158,11 @@ class Check:
         self.native = None
 
     def note(self, rc):
+        # a reported violation (exit 1, VIOLATION line printed) stands even if another substrate then has
+        # trouble of its own; a harness error alone gives exit 2
         if rc == 1:
-            if self.rc == 0:
-                self.rc = 1
-        elif rc != 0:
+            self.rc = 1
+        elif rc != 0 and self.rc == 0:
             self.rc = 2
 
     def common(self, sub):
@@ -202,9 +203,11 @@ class Check:
         tail = [l for l in stderr.strip().splitlines() if l.strip()][-3:]
         summary = ' | '.join(tail)[:400] if tail else 'process died with status %d' % status
         if not os.path.exists(note):
-            sys.stderr.write(stderr[-4000:])
-            say('HARNESS ERROR: %s substrate died with status %d and left no note of the run it was executing' % (sub, status))
-            self.note(2)
+            sys.stderr.write(stderr[-2000:])
+            say('%s substrate was killed (status %d) and left no note of the run it was executing: %s' % (sub, status, summary))
+            self.dead.append(sub)
+            if self.prop == 'C06':
+                self.note(2)
             return
         prop, seed, index = open(note).read().split()
         os.makedirs(FOUND, exist_ok=True)
@@ -219,8 +222,11 @@ class Check:
             json.dump(j, f, indent=1)
         rp = subprocess.run([binary, 'replay', path] + extra, stdout=subprocess.PIPE, stderr=subprocess.PIPE, text=True)
         if rp.returncode in (0, 2):
-            say('HARNESS ERROR: the abort in run %s on %s did not reproduce from %s' % (index, sub, path))
-            self.note(2)
+            # e.g. glibc noticed a corrupted heap on a thread other than the one that corrupted it
+            say('the %s substrate was killed in run %s (%s) but that run alone does not reproduce it from %s' % (sub, index, summary, path))
+            self.dead.append(sub)
+            if self.prop == 'C06':
+                self.note(2)
             return
         say('violation: run %s killed the process on the %s substrate: %s' % (index, sub, summary))
         if self.prop == 'C06':
@@ -414,6 +420,9 @@ def check(prop, tier):
         else:
             c.run_plain(sub, kind, n)
     if c.rc == 2:
+        return 2
+    if c.rc == 0 and not c.parts:
+        sys.stderr.write('HARNESS ERROR: every substrate of %s was killed by the code under test (memory-safety violations: see ./check C06)\n' % prop)
         return 2
     c.merge(order)
     return c.rc
